@@ -298,7 +298,8 @@ class Adapter(object):
         self.fires.append(self._until(clock.now))
         if c["stop"] and len(self.fires) >= c["stop"]:
           return False
-        return None
+        # only the value False stops a self-stoppable timer: other falsy results must not
+        return (0, None, 0.0, "")[len(self.fires) % 4]
       self.sched._thread = None
       self.pending_st = 250
       self.timer = recoco.Timer(c["d"], cb, recurring=c["rec"], scheduler=self.sched)
